@@ -7,7 +7,7 @@ from .reftensor import KEYS21
 NAMES21 = ["c%d%d" % k for k in KEYS21]
 
 
-def random_invariant(system, rng, nrows, scale=300.0, zero_some=False, zero_one_row=False):
+def random_invariant(system, rng, nrows, scale=300.0, zero_some=False, zero_one_row=False, tiny_some=False):
     """Random tensors in W: w (nrows, 21).  Coefficients vary smoothly with the row (volume)."""
     B, _ = invariant_basis(system)
     dim = B.shape[1]
@@ -19,6 +19,14 @@ def random_invariant(system, rng, nrows, scale=300.0, zero_some=False, zero_one_
         z = rng.random(dim) < 0.3
         c0[z] = 0.0
         c1[z] = 0.0
+    if tiny_some:
+        # small but not vanishing: 1e-7..1e-4 next to components of order 100 (the documented drop threshold is an
+        # absolute 1e-8 on the component itself)
+        m = rng.random(dim) < 0.3
+        m[int(rng.integers(0, dim))] = True
+        tiny = rng.choice([-1.0, 1.0], dim) * 10.0 ** rng.uniform(-7, -4, dim)
+        c0[m] = tiny[m]
+        c1[m] = tiny[m] * rng.uniform(-0.2, 0.2, dim)[m]
     t = np.linspace(0.0, 1.0, nrows)[:, None] if nrows > 1 else np.zeros((1, 1))
     coef = c0[None, :] + t * c1[None, :]
     if zero_one_row and nrows > 1:
